@@ -8,6 +8,13 @@ Streams (model `Wpull.Path` vs the real code in the wpull checkout):
   split     urllib.parse.urlsplit + .hostname + .port   (mirrored library function)
   join      posixpath.join / posixpath.dirname          (mirrored library functions)
   cd        BaseFileWriterSession._rename_with_content_disposition on a real Response
+  history   sequences of safe_filename / PathNamer.get_filename (ftp) / Content-Disposition rename calls
+            with DIFFERENT restriction settings in one process, each sequence from a freshly executed
+            wpull.path (empty module-level caches): every ordered pair of (os_type, nocontrol, ascii)
+            through each entry point, pairs differing in case / max_length, random interleavings.
+            Oracle per call against the settings of THAT call; correspondence per call with the pure
+            model (= the result does not depend on what was called before).
+  urlcache  oracle only: wpull.url.percent_encode with never-seen encode sets in random order vs its definition
   writer    oracle only: the four real file-writer sessions in a scratch directory
             (existing files / directories in the way, hostile Content-Disposition,
             --adjust-extension): the file that would be opened lies inside the prefix.
@@ -33,9 +40,12 @@ RULE = ('name: raw URLs assembled from scheme x userinfo x host x port x 0-5 pat
         'very long names, non-ASCII, trailing dot/space, Windows-reserved characters), canonicalised by the real '
         'URLInfo.parse, x every combination of os_type x nocontrol x ascii x case x max_length{None,0,1,7,8,9,16,40,255,-3} '
         'x use_dir x cut{None,0..3,10} x protocol x hostname x root; safe/cd: names from the same alphabet; '
-        'Content-Disposition values from a header grammar with hostile names. non-trivial = the case reaches the '
+        'Content-Disposition values from a header grammar with hostile names; history: call sequences with different '
+        'restriction settings in one process from a fresh wpull.path (all ordered pairs of os x nocontrol x ascii through '
+        'safe_filename / ftp get_filename / Content-Disposition rename, random interleavings), the safe stream is shuffled. non-trivial = the case reaches the '
         'sanitiser with a non-empty name; distinct by (input, configuration)')
-TRUSTED = ['urllib.parse.urlsplit/.hostname/.port, urllib.parse.unquote, posixpath.join/dirname are mirrored '
+TRUSTED = ['importlib.reload(wpull.path / wpull.url) gives the module-level state of a new process (history / urlcache streams)',
+           'urllib.parse.urlsplit/.hostname/.port, urllib.parse.unquote, posixpath.join/dirname are mirrored '
            '(differential streams split, unquote, join)',
            'the two regular expressions of parse_content_disposition are not modelled: their match groups are logged '
            'from the real run (wpull.path.re proxy) and passed to the model; the theorems hold for every value',
@@ -107,12 +117,43 @@ class Real:
         self.wp, self.wu, self.ww = wp, wu, ww
         self.hash = _HashProxy()
         self.re = _ReProxy()
+        self.calls = []
+        self.settings = []      # distinct safe_filename settings used since the module was last executed, in order
+        self._settings_seen = set()
+        self._install()
+
+    def note_settings(self, kw):
+        key = tuple(sorted(kw.items(), key=str))
+        if key not in self._settings_seen:
+            self._settings_seen.add(key)
+            self.settings.append(dict(kw))
+
+    def prior(self, n=None):
+        """what a replay has to do first to bring wpull.path into the same state"""
+        return [dict(k) for k in (self.settings if n is None else self.settings[:n])]
+
+    def fresh_url(self):
+        """wpull.url as a new process would see it (module-level caches empty)"""
+        import importlib
+        importlib.reload(self.wu)
+
+    def warm(self, prior):
+        self.fresh()
+        for kw in prior:
+            for name in ('warm', 'w\x00/é'):
+                try:
+                    self.wp.safe_filename(name, **kw)
+                except Exception:
+                    pass
+
+    def _install(self):
+        wp = self.wp
         wp.hashlib = self.hash
         wp.re = self.re
         self.orig_safe = wp.safe_filename
-        self.calls = []
 
         def logged_safe(filename, **kw):
+            self.note_settings(kw)
             n0 = len(self.hash.log)
             rec = {'in': filename, 'digest': None, 'out': None, 'exc': None}
             self.calls.append(rec)
@@ -126,6 +167,15 @@ class Real:
                 if len(self.hash.log) > n0:
                     rec['digest'] = self.hash.log[-1]
         wp.safe_filename = logged_safe
+
+    def fresh(self):
+        """wpull.path as a new process would see it: the module body is executed again, so every
+        module-level cache (`_encoder_cache`, ...) starts empty; the proxies are put back."""
+        import importlib
+        importlib.reload(self.wp)
+        del self.settings[:]
+        self._settings_seen.clear()
+        self._install()
 
     @classmethod
     def get(cls, ctx):
@@ -396,6 +446,8 @@ def stream_safe(ctx, real, cases):
     reqs, meta = [], []
     for cfg, name in cases:
         real.hash.log.clear()
+        n_prior = len(real.settings)
+        real.note_settings(safe_kw(cfg))
         try:
             out, exc = real.orig_safe(name, **safe_kw(cfg)), None
         except Exception as e:
@@ -404,9 +456,9 @@ def stream_safe(ctx, real, cases):
         check_digest(digest)
         tbl, ctxdep = fold_table(cfg['case'], [name])
         reqs.append('path safe %s %s %s %s' % (safe_toks(cfg), tbl, digest_tok(digest), enc(name)))
-        meta.append((cfg, name, out, exc, ctxdep))
+        meta.append((cfg, name, out, exc, ctxdep, n_prior))
     replies = ctx.model.ask(reqs)
-    for (cfg, name, out, exc, ctxdep), rep in zip(meta, replies):
+    for (cfg, name, out, exc, ctxdep, n_prior), rep in zip(meta, replies):
         realtok = ('ok ' + enc(out)) if exc is None else ('exc ' + exc)
         tags = ['safe:' + (exc or 'ok'), 'safe:os=' + os_tok(cfg['os_type'])]
         if ctxdep:
@@ -420,7 +472,7 @@ def stream_safe(ctx, real, cases):
             if p is None and cfg['os_type'] == 'windows' and any(c in WINCHARS for c in out):
                 p = 'Windows-reserved character in %r' % out
             if p:
-                ctx.fail('unsafe-component', 'safe_filename', case, p)
+                ctx.fail('unsafe-component', 'safe_filename', dict(case, prior_settings=real.prior(n_prior)), p)
     if cases:
         ctx.sample({'stream': 'safe', 'cfg': cases[0][0], 'name': cases[0][1]})
 
@@ -473,12 +525,13 @@ def stream_name(ctx, real, cases, stream='name'):
             raw = url
             ui = types.SimpleNamespace(url=url, scheme=scheme)
             is_ftp = scheme == 'ftp'
+        n_prior = len(real.settings)
         path, exc = real_get_filename(real, cfg, ui)
         req, calls, ctxdep = name_request(real, cfg, url, is_ftp)
         reqs.append(req)
-        meta.append((cfg, raw, url, ui.scheme, path, exc, calls, ctxdep))
+        meta.append((cfg, raw, url, ui.scheme, path, exc, calls, ctxdep, n_prior))
     replies = ctx.model.ask(reqs)
-    for (cfg, raw, url, scheme, path, exc, calls, ctxdep), rep in zip(meta, replies):
+    for (cfg, raw, url, scheme, path, exc, calls, ctxdep, n_prior), rep in zip(meta, replies):
         ins = [c['in'] for c in calls]
         outs = [c['out'] for c in calls if c['exc'] is None]
         case = {'stream': stream, 'cfg': cfg, 'raw': raw, 'url': url, 'scheme': scheme}
@@ -499,7 +552,7 @@ def stream_name(ctx, real, cases, stream='name'):
         if exc is None and stream == 'name' and oracle_applies(cfg) and scheme in ('http', 'https', 'ftp'):
             p = containment_problem(path, cfg['root'], cfg)
             if p:
-                ctx.fail('escapes-prefix', 'get_filename', case, p)
+                ctx.fail('escapes-prefix', 'get_filename', dict(case, prior_settings=real.prior(n_prior)), p)
     if meta:
         ctx.sample({'stream': stream, 'cfg': meta[0][0], 'raw': meta[0][1], 'url': meta[0][2]})
 
@@ -587,6 +640,7 @@ def stream_cd(ctx, real, cases):
             ctx.case(('cd', url), nontrivial=False, tags=['cd:unparseable'])
             continue
         seen = response.fields.get('Content-Disposition')
+        n_prior = len(real.settings)
         del real.calls[:]
         del real.re.log[:]
         real.hash.log.clear()
@@ -604,9 +658,9 @@ def stream_cd(ctx, real, cases):
         reqs.append('path cd %s %s %s %s %s %s %s %s' % (safe_toks(cfg), tbl, digest_tok(digest), enc(cur or ''),
                                                      'T' if is_http else 'F', 'T' if seen else 'F',
                                                      opt_tok(m1), opt_tok(m2)))
-        meta.append((cfg, cur, url, header, out, exc, ctxdep, [c['in'] for c in real.calls]))
+        meta.append((cfg, cur, url, header, out, exc, ctxdep, [c['in'] for c in real.calls], n_prior))
     replies = ctx.model.ask(reqs)
-    for (cfg, cur, url, header, out, exc, ctxdep, ins), rep in zip(meta, replies):
+    for (cfg, cur, url, header, out, exc, ctxdep, ins, n_prior), rep in zip(meta, replies):
         case = {'stream': 'cd', 'cfg': cfg, 'cur': cur, 'url': url, 'header': header}
         # the model also reports the extracted name; the real one is the logged input of safe_filename
         rep_head = ' '.join(rep.split(' ')[:2])
@@ -626,7 +680,7 @@ def stream_cd(ctx, real, cases):
             if p is None and posixpath.dirname(out) != d:
                 p = 'directory changed from %r to %r' % (d, posixpath.dirname(out))
             if p:
-                ctx.fail('escapes-prefix', 'content_disposition', case, p)
+                ctx.fail('escapes-prefix', 'content_disposition', dict(case, prior_settings=real.prior(n_prior)), p)
     if meta:
         ctx.sample({'stream': 'cd', 'cfg': meta[0][0], 'cur': meta[0][1], 'header': meta[0][3]})
 
@@ -655,6 +709,7 @@ def check_writer(ctx, real, scratch, case):
         ctx.case(key, nontrivial=False, tags=['writer:not-http'])
         return
     opened = []
+    prior = real.prior()
     try:
         namer = make_namer(real, ncfg)
         # things already on disk that the anti-clobber helpers react to
@@ -698,7 +753,7 @@ def check_writer(ctx, real, scratch, case):
         if p is None and not os.path.normpath(path).startswith(root + '/'):
             p = 'normalised %r is outside %r' % (os.path.normpath(path), root)
         if p:
-            shown = dict(case)
+            shown = dict(case, prior_settings=prior)
             ctx.fail('escapes-prefix', 'writer_session', shown, '%s filename: %s' % (what, p.replace(scratch, '<scratch>')))
             return
 
@@ -722,6 +777,193 @@ def gen_writer_case(rng):
             'flags': flags, 'obstacles': obstacles}
 
 
+# ------------------------------------------------------------------ stream: history (order of use inside one process)
+HIST_NAMES = ['a\x00b', 'nl\nx', 'esc\x1b[31m.txt', 'tab\there', 'bell\x07', '\x1f', 'a/b', '../x', '/etc/passwd',
+              'é\x01', 'A\\b:c', 'plain.txt', '..', '.', 'Ünï/\x0b', 'x' * 30 + '\x00/', '\x7f\x85']
+
+
+def hist_step(real, call):
+    """one use of the real code; returns the safe_filename invocations it made"""
+    cfg, kind, name = call['cfg'], call['kind'], call['name']
+    del real.calls[:]
+    real.hash.log.clear()
+    try:
+        if kind == 'safe':
+            real.wp.safe_filename(name, **safe_kw(cfg))
+        else:
+            ncfg = dict(cfg, root='dl', index='index.html', use_dir=True, cut=None, protocol=False, hostname=True)
+            namer = make_namer(real, ncfg)
+            if kind == 'ftp':
+                url = 'ftp://example.com/pub/' + urllib.parse.quote(name, safe='')
+                namer.get_filename(real.wu.URLInfo.parse(url))
+            else:   # 'cd': the writer's Content-Disposition rename
+                session = real.ww.OverwriteFileWriterSession(namer, False, False, False, False, True, False)
+                session._filename = 'dl/example.com/a'
+                hname = ''.join(c if ord(c) < 256 and c not in '\r\n' else '?' for c in name)
+                request, response = make_response(real, 'http://example.com/a',
+                                                  'attachment; filename=%s' % hname)
+                session._rename_with_content_disposition(response)
+    except Exception:
+        pass
+    return [dict(c) for c in real.calls]
+
+
+def stream_history(ctx, real, sequences):
+    """sequences: lists of calls {'cfg', 'kind', 'name'}; each sequence starts from a fresh wpull.path
+    and its calls run in the given order in this process.  Oracle per call: the component satisfies the
+    predicate of THIS call's configuration, whatever was used before.  Correspondence per call: the (pure)
+    model, i.e. the result does not depend on the history."""
+    reqs, meta = [], []
+    for seq in sequences:
+        real.fresh()
+        failed = False
+        for i, call in enumerate(seq):
+            cfg = call['cfg']
+            invs = hist_step(real, call)
+            ctx.case(('history', i, tuple(sorted(cfg.items(), key=str)), call['kind'], call['name'],
+                      tuple((tuple(sorted(c['cfg'].items(), key=str)), c['kind'], c['name']) for c in seq[:i])),
+                     tags=['history:' + call['kind'], 'history:step%d' % min(i, 5)])
+            for inv in invs:
+                check_digest(inv['digest'])
+                tbl, ctxdep = fold_table(cfg['case'], [inv['in']])
+                realtok = ('ok ' + enc(inv['out'])) if inv['exc'] is None else ('exc ' + inv['exc'])
+                reqs.append('path safe %s %s %s %s' % (safe_toks(cfg), tbl, digest_tok(inv['digest']), enc(inv['in'])))
+                meta.append((seq[:i + 1], realtok, ctxdep))
+                if inv['exc'] is None and inv['in'] != '' and oracle_applies(cfg) and not failed:
+                    p = component_problem(inv['out'], cfg)
+                    if p is None and cfg['os_type'] == 'windows' and any(c in WINCHARS for c in inv['out']):
+                        p = 'Windows-reserved character in %r' % inv['out']
+                    if p:
+                        failed = True
+                        ctx.fail('unsafe-component', 'history', {'stream': 'history', 'calls': seq[:i + 1]},
+                                 'call %d of the sequence (%s, %r -> %r, restrictions of this call: %s): %s; '
+                                 'the calls before it in the same process used other settings'
+                                 % (i + 1, call['kind'], inv['in'], inv['out'], safe_kw(cfg), p))
+    real.fresh()
+    replies = ctx.model.ask(reqs)
+    for (prefix, realtok, ctxdep), rep in zip(meta, replies):
+        if realtok != rep and not ctxdep:
+            ctx.disagree('history', {'stream': 'history', 'calls': prefix}, rep, realtok)
+    if sequences:
+        ctx.sample({'stream': 'history', 'calls': sequences[0]})
+
+
+def history_sequences(rng, n_random):
+    seqs = []
+    combos = [{'os_type': o, 'no_control': nc, 'ascii_only': ao, 'case': None, 'max_length': None}
+              for o in OS_TYPES for nc in (True, False) for ao in (True, False)]
+    names = ['a\x00b', 'esc\x1b[31m.txt', 'nl\nx/é']
+    # every ordered pair of (os_type, no_control, ascii_only), through each entry point
+    for a in combos:
+        for b in combos:
+            if a is b:
+                continue
+            for kind in ('safe', 'ftp', 'cd'):
+                seqs.append([{'cfg': a, 'kind': kind, 'name': n} for n in names]
+                            + [{'cfg': b, 'kind': kind, 'name': n} for n in names])
+    # pairs that differ only in case / max_length, both orders
+    for a in combos:
+        for change in ({'case': 'lower'}, {'case': 'upper'}, {'max_length': 8}):
+            b = dict(a, **change)
+            for x, y in ((a, b), (b, a)):
+                seqs.append([{'cfg': x, 'kind': 'safe', 'name': 'A\x00/b' + 'c' * 12},
+                             {'cfg': y, 'kind': 'safe', 'name': 'A\x00/b' + 'c' * 12}])
+    # random interleavings of a few settings
+    for _ in range(n_random):
+        base = gen_safe_cfg(rng)
+        pool = [base]
+        for _ in range(rng.choice([1, 2, 3])):
+            c = dict(rng.choice(pool))
+            flag = rng.choice(['no_control', 'ascii_only', 'os_type', 'case', 'max_length'])
+            if flag in ('no_control', 'ascii_only'):
+                c[flag] = not c[flag]
+            elif flag == 'os_type':
+                c[flag] = 'windows' if c[flag] == 'unix' else 'unix'
+            elif flag == 'case':
+                c[flag] = rng.choice([x for x in CASES if x != c[flag]])
+            else:
+                c[flag] = rng.choice([x for x in (None, 8, 16, 255) if x != c[flag]])
+            pool.append(c)
+        seq = []
+        for _ in range(rng.choice([2, 3, 4, 6, 10])):
+            name = rng.choice(HIST_NAMES) if rng.random() < 0.7 else gen_name(rng)
+            seq.append({'cfg': rng.choice(pool), 'kind': rng.choice(['safe', 'safe', 'ftp', 'cd']), 'name': name})
+        seqs.append(seq)
+    return seqs
+
+
+# ------------------------------------------------------------------ stream: urlcache (wpull.url's encoder-map cache)
+def ref_percent_encode(text, encode_set, encoding='utf-8'):
+    return ''.join('%%%02X' % b if (b < 0x20 or b > 0x7E or b in encode_set) else chr(b) for b in text.encode(encoding))
+
+
+def ref_normalize(text, encode_set):
+    return re.sub(r'%[a-fA-F0-9][a-fA-F0-9]', lambda m: m.group(0).upper(), ref_percent_encode(text, encode_set))
+
+
+URL_FNS = {'normalize_username': 'USERNAME_ENCODE_SET', 'normalize_password': 'PASSWORD_ENCODE_SET',
+           'normalize_fragment': 'FRAGMENT_ENCODE_SET', 'normalize_path': 'DEFAULT_ENCODE_SET'}
+
+
+def urlcache_call(real, c):
+    """(result, expected by definition) of one recorded call"""
+    wu = real.wu
+    if 'fn' in c:
+        st = getattr(wu, URL_FNS[c['fn']])
+        if c['fn'] == 'normalize_path':
+            return wu.percent_encode(c['text'], st), ref_percent_encode(c['text'], st)
+        return getattr(wu, c['fn'])(c['text']), ref_normalize(c['text'], st)
+    st = frozenset(c['encode_set'])
+    return wu.percent_encode(c['text'], st), ref_percent_encode(c['text'], st)
+
+
+def stream_urlcache(ctx, real, rng, n):
+    """wpull.url.percent_encode keeps one encoder map per encode set in a module-level cache.  After the
+    standard sets (from a freshly executed wpull.url), encode sets never used before in this process are used in random order on the same
+    texts (pairs that differ in one member, subsets, equal size); every result must equal the definition,
+    whatever was encoded before.  A failure is reported with the whole call history of the stream."""
+    history = []
+    real.fresh_url()
+
+    def do(c):
+        history.append(c)
+        out, want = urlcache_call(real, c)
+        ctx.case(('urlcache', len(history), repr(c)), tags=['urlcache'])
+        if out != want:
+            ctx.fail('history-dependent', 'percent_encode', {'stream': 'urlcache', 'calls': list(history)},
+                     'call %d: %r gives %r, by definition %r' % (len(history), c, out, want))
+            return False
+        return True
+
+    for fn in sorted(URL_FNS):
+        if not do({'fn': fn, 'text': 'a b/c@d:e#f?g%h\\i"j<k>l`m'}):
+            return
+    for _ in range(n):
+        base = frozenset(rng.sample(range(0x20, 0x7F), rng.choice([1, 3, 7, 12])))
+        extra = rng.choice([b for b in range(0x20, 0x7F) if b not in base])
+        swapped = frozenset(sorted(base)[1:] + [extra]) if len(base) > 1 else frozenset([extra])
+        sets = [base, base | {extra}, swapped]
+        rng.shuffle(sets)
+        text = ''.join(chr(rng.choice(sorted(base | {extra}) + [0x41, 0x7A, 0x25, 0x20, 0x2F, 0xE9, 0x0A]))
+                       for _ in range(rng.choice([1, 4, 12])))
+        for st in sets + [rng.choice(sets)]:
+            if not do({'encode_set': sorted(st), 'text': text}):
+                return
+        if not do({'fn': rng.choice(sorted(URL_FNS)), 'text': text}):
+            return
+
+
+def replay_urlcache(ctx, real, calls):
+    real.fresh_url()
+    for i, c in enumerate(calls):
+        ctx.case(('urlcache-replay', i), tags=['urlcache'])
+        out, want = urlcache_call(real, c)
+        if out != want:
+            ctx.fail('history-dependent', 'percent_encode', {'stream': 'urlcache', 'calls': calls[:i + 1]},
+                     'call %d: %r gives %r, by definition %r' % (i + 1, c, out, want))
+            return
+
+
 # ------------------------------------------------------------------ entry points
 def load_corpus(ctx):
     import glob
@@ -737,6 +979,9 @@ def load_corpus(ctx):
 def replay(ctx, case, kind=None, where=None):
     real = Real.get(ctx)
     s = case.get('stream')
+    if 'prior_settings' in case:
+        # the failure was seen after these settings had been used in the same process
+        real.warm(case['prior_settings'])
     if s == 'safe':
         stream_safe(ctx, real, [(case['cfg'], case['name'])])
     elif s == 'name':
@@ -751,6 +996,10 @@ def replay(ctx, case, kind=None, where=None):
         stream_split(ctx, [case['url']])
     elif s == 'join':
         stream_join(ctx, [(case['root'], case['parts'])])
+    elif s == 'history':
+        stream_history(ctx, real, [case['calls']])
+    elif s == 'urlcache':
+        replay_urlcache(ctx, real, case['calls'])
     elif s == 'writer':
         scratch = tempfile.mkdtemp(prefix='c15-')
         try:
@@ -778,6 +1027,10 @@ def run(ctx):
         replay(ctx, case['case'] if 'case' in case else case)
     rng = ctx.rng
 
+    # order of use inside one process (module-level caches): every sequence starts from a fresh wpull.path
+    stream_history(ctx, real, history_sequences(ctx.subrng('history'), ctx.scale(400, 8000)))
+    stream_urlcache(ctx, real, ctx.subrng('urlcache'), ctx.scale(300, 5000))
+
     # library mirrors
     strings = [gen_seg(rng) + rng.choice(['', gen_seg(rng)]) for _ in range(ctx.scale(3000, 60000))]
     strings += ['%%%02X%%%02X%%%02X' % (a, b, c) for a in (0xC2, 0xE0, 0xE1, 0xED, 0xEF, 0xF0, 0xF1, 0xF4, 0xF5, 0x80, 0x41)
@@ -793,6 +1046,8 @@ def run(ctx):
              'a' * 300, 'é' * 200, '/' * 100, 'Σ', 'AΣ', 'ß', 'K', '\udc80', 'CON', 'a:b', '\x1f', '\x7f', '\x85', '%2E%2E']
     cases = [(cfg, n) for cfg in all_safe_cfgs() for n in fixed]
     cases += [(gen_safe_cfg(rng, other=True), gen_name(rng)) for _ in range(ctx.scale(15000, 250000))]
+    rng.shuffle(cases)      # the correspondence is compared after a randomised history of other calls
+    real.fresh()
     stream_safe(ctx, real, cases)
 
     # get_filename
@@ -854,6 +1109,7 @@ def search(ctx):
     """Correspondence or proof broke: aim a larger budget at the oracles."""
     real = Real.get(ctx)
     rng = ctx.subrng('search')
+    stream_history(ctx, real, history_sequences(rng, ctx.scale(50, 250)))
     stream_safe(ctx, real, [(gen_safe_cfg(rng), gen_name(rng)) for _ in range(ctx.scale(2000, 10000))])
     stream_name(ctx, real, [(gen_namer_cfg(rng), gen_raw_url(rng)) for _ in range(ctx.scale(3000, 15000))])
     stream_cd(ctx, real, [(gen_safe_cfg(rng), 'dl/h/a', 'http://h/a', gen_header(rng)) for _ in range(ctx.scale(1000, 5000))])
